@@ -113,6 +113,27 @@ func (w *world) verifyContract(c *Contract, onlyMode string, opts *runOpts) []*f
 		}
 		return out
 	}
+	if c.PerVariant != "" {
+		sp := w.ssaPkgs[c.PkgPath]
+		probe := &Contract{PkgPath: c.PkgPath, Target: "Node.Key", Kind: "iface"}
+		for _, impl := range w.implementers(probe) {
+			f := sp.Func(c.PerVariant + impl.named.Obj().Name())
+			if c.PerVariant == "self" {
+				// the function itself, once under the feature flags of every variant; the clauses can name the variant's
+				// constructor and cast function as variantNew / variantCast
+				f = w.ssaFunc(c)
+			}
+			if f == nil {
+				out = append(out, &fnResult{Con: c, Mode: "seq", Variant: impl.named.Obj().Name(), Err: "no function " + c.PerVariant + impl.named.Obj().Name()})
+				continue
+			}
+			out = append(out, w.verifyFunc(c, f, "seq", impl.named, opts))
+		}
+		if len(out) == 0 {
+			out = append(out, &fnResult{Con: c, Mode: "seq", Err: "per-variant: no node variants found"})
+		}
+		return out
+	}
 	fn := w.ssaFunc(c)
 	for _, m := range c.Modes {
 		if onlyMode != "" && m != onlyMode {
